@@ -251,7 +251,7 @@ func TestVerifDynamic(t *testing.T) {
 
 // boundedC07Exec: bounded stand-in (never counted as proved) for Exec.Apply, whose body
 // (file reading, Parse, Resolve, templates) is outside the subset: the real directive.Run is
-// run on '#aa:exec [T] child' for every transition T of the documented domain
+// run on '#aa:exec [T] child other' for every transition T of the documented domain
 // {none, P, U, p, u, PU, pu} (exhaustive in T) against a two-executable profile written to
 // a temporary directory; each executable must get exactly one rule, with access Tx (Px when
 // no transition is given), and the directive must be consumed.
@@ -272,6 +272,7 @@ import (
 func TestVerifDynamic(t *testing.T) {
 	dir := t.TempDir()
 	os.WriteFile(filepath.Join(dir, "child"), []byte("abi <abi/4.0>,\n\n@{exec_path} = /usr/bin/child /usr/lib/child\nprofile child @{exec_path} {\n}\n"), 0o644)
+	os.WriteFile(filepath.Join(dir, "other"), []byte("abi <abi/4.0>,\n\n@{exec_path} = /usr/bin/other\nprofile other @{exec_path} {\n}\n"), 0o644)
 	saved := prebuild.RootApparmord
 	defer func() { prebuild.RootApparmord = saved }()
 	prebuild.RootApparmord = paths.New(dir)
@@ -284,9 +285,9 @@ func TestVerifDynamic(t *testing.T) {
 		}
 	}
 	for _, tr := range []string{"", "P", "U", "p", "u", "PU", "pu"} {
-		directive, access := "  #aa:exec child", "Px"
+		directive, access := "  #aa:exec child other", "Px"
 		if tr != "" {
-			directive, access = "  #aa:exec "+tr+" child", tr+"x"
+			directive, access = "  #aa:exec "+tr+" child other", tr+"x"
 		}
 		evals++
 		got, err := Run(paths.New("demo"), directive)
@@ -308,8 +309,8 @@ func TestVerifDynamic(t *testing.T) {
 			}
 			seen[f[0]]++
 		}
-		if !ok || len(seen) != 2 || seen["/usr/bin/child"] != 1 || seen["/usr/lib/child"] != 1 {
-			bad(fmt.Sprintf("%q expanded to %q, want one '%s,' rule for each of /usr/bin/child and /usr/lib/child", directive, got, access))
+		if !ok || len(seen) != 3 || seen["/usr/bin/child"] != 1 || seen["/usr/lib/child"] != 1 || seen["/usr/bin/other"] != 1 {
+			bad(fmt.Sprintf("%q expanded to %q, want one '%s,' rule for each of /usr/bin/child, /usr/lib/child and /usr/bin/other", directive, got, access))
 		}
 	}
 	fmt.Printf("VERIF_DYNAMIC evaluations=%d violations=%d%s\n", evals, viol, first)
@@ -318,6 +319,108 @@ func TestVerifDynamic(t *testing.T) {
 	r := runDynamic(env, "pkg/prebuild/directive", "C07/exec-directive-transitions", src)
 	r.Name = "bounded/C07/exec-directive-transitions"
 	r.Kind, r.Backend = "bounded", "go test, exhaustive over the seven documented transitions"
-	r.Detail = strings.Replace(r.Detail, "dynamic (not a proof)", "bounded stand-in (not a proof; all 7 transitions x one two-executable profile)", 1)
+	r.Detail = strings.Replace(r.Detail, "dynamic (not a proof)", "bounded stand-in (not a proof; all 7 transitions x two named profiles with three executables)", 1)
+	return r
+}
+
+// boundedC07Stack: bounded stand-in (never counted as proved) for the text surgery of
+// Stack.Apply (multi-line regexps over a stacked profile's body): the real directive.Run on
+// '#aa:stack [X] one two' against two stacked profiles written to a temporary directory; one
+// holds a rule for each of the 17 exec-transition spellings (P|p|)(U|u|)(i|)x, a sub-profile
+// and marker rules before, inside and after it. Every marker rule of both profiles must
+// arrive, in the order given; the base include and the entry point must not; the
+// transition rules must all arrive with X and none without; the host's own rule stays.
+func boundedC07Stack(env *Env) frame.Result {
+	src := `package directive
+
+import (
+	"fmt"
+	"os"
+	"path/filepath"
+	"strings"
+	"testing"
+
+	"github.com/roddhjav/apparmor.d/pkg/paths"
+	"github.com/roddhjav/apparmor.d/pkg/prebuild"
+)
+
+func TestVerifDynamic(t *testing.T) {
+	dir := t.TempDir()
+	var trans []string
+	for _, a := range []string{"", "P", "p"} {
+		for _, b := range []string{"", "U", "u"} {
+			for _, c := range []string{"", "i"} {
+				if a+b+c != "" {
+					trans = append(trans, a+b+c+"x")
+				}
+			}
+		}
+	}
+	one := "abi <abi/4.0>,\n\ninclude <tunables/global>\n\n@{exec_path} = /usr/bin/one\nprofile one @{exec_path} {\n  include <abstractions/base>\n\n  @{exec_path} mr,\n  /marker/one/a r,\n"
+	for i, tr := range trans {
+		one += fmt.Sprintf("  /usr/bin/tool%d r%s,\n", i, tr)
+	}
+	one += "  /marker/one/b r,\n\n  profile sub {\n    /marker/one/c r,\n  }\n\n  /marker/one/d r,\n\n  include if exists <local/one>\n}\n"
+	two := "abi <abi/4.0>,\n\n@{exec_path} = /usr/bin/two\nprofile two @{exec_path} {\n  include <abstractions/base>\n\n  @{exec_path} mr,\n  /marker/two/a r,\n\n  include if exists <local/two>\n}\n"
+	os.WriteFile(filepath.Join(dir, "one"), []byte(one), 0o644)
+	os.WriteFile(filepath.Join(dir, "two"), []byte(two), 0o644)
+	saved := prebuild.RootApparmord
+	defer func() { prebuild.RootApparmord = saved }()
+	prebuild.RootApparmord = paths.New(dir)
+	evals, viol := 0, 0
+	first := ""
+	bad := func(s string) {
+		viol++
+		if first == "" {
+			first = " " + s
+		}
+	}
+	for _, x := range []bool{false, true} {
+		directive := "  #aa:stack one two"
+		if x {
+			directive = "  #aa:stack X one two"
+		}
+		host := "profile host /usr/bin/host {\n  include <abstractions/base>\n\n  /host/own r,\n\n" + directive + "\n  include if exists <local/host>\n}\n"
+		got, err := Run(paths.New("host"), host)
+		evals++
+		if err != nil {
+			bad(fmt.Sprintf("%q: error %v", directive, err))
+			continue
+		}
+		if strings.Contains(got, Keyword) {
+			bad(fmt.Sprintf("%q: directive not consumed", directive))
+		}
+		if !strings.Contains(got, "  /host/own r,\n") || strings.Count(got, "include <abstractions/base>") != 1 {
+			bad(fmt.Sprintf("%q: the host's own rules changed: %q", directive, got))
+		}
+		if strings.Contains(got, "@{exec_path}") {
+			bad(fmt.Sprintf("%q: an entry point of a stacked profile arrived: %q", directive, got))
+		}
+		last := -1
+		for _, m := range []string{"/marker/one/a r,", "/marker/one/b r,", "/marker/one/c r,", "/marker/one/d r,", "/marker/two/a r,"} {
+			evals++
+			p := strings.Index(got, m)
+			if p < 0 || strings.Count(got, m) != 1 {
+				bad(fmt.Sprintf("%q: rule %q of a stacked profile did not arrive exactly once: %q", directive, m, got))
+			} else if p < last {
+				bad(fmt.Sprintf("%q: rule %q is out of order", directive, m))
+			}
+			last = p
+		}
+		for i, tr := range trans {
+			evals++
+			line := fmt.Sprintf("  /usr/bin/tool%d r%s,", i, tr)
+			if strings.Contains(got, line) != x {
+				bad(fmt.Sprintf("%q: transition rule %q present=%v, want %v", directive, line, !x, x))
+			}
+		}
+	}
+	fmt.Printf("VERIF_DYNAMIC evaluations=%d violations=%d%s\n", evals, viol, first)
+}
+`
+	r := runDynamic(env, "pkg/prebuild/directive", "C07/stack-directive-body", src)
+	r.Name = "bounded/C07/stack-directive-body"
+	r.Kind, r.Backend = "bounded", "go test, exhaustive over the 17 exec-transition spellings x {X, no X}"
+	r.Detail = strings.Replace(r.Detail, "dynamic (not a proof)", "bounded stand-in (not a proof; two stacked profiles, one with a sub-profile, 17 transition spellings, with and without X)", 1)
 	return r
 }
